@@ -289,9 +289,9 @@ def spaces(tier, seed):
               bounds={'L': Lmpo, 'qd': qds_mpo, 'D': [1, 2], 'dtypes': DTYPES, 'ops': ['+', '-', '@', 'as_matrix dense/sparse']}),
         Space('apply', core.chunked(_apply_cases(Lmpo, qds_mpo, [1, 2]), 300), run_case=run_case, sig=sig,
               bounds={'L': Lmpo, 'qd': qds_mpo, 'D': [1, 2], 'dtypes': DTYPES}),
-        Space('mpo_pairs_L3', core.chunked(_mpo_pair_cases([3], [[0, 1]] if tier == 'quick' else qds_mpo, [1, 2], ['rc', 'cr'] if tier == 'quick' else DTYPES), 200),
+        Space('mpo_pairs_L3', core.chunked(_mpo_pair_cases([3], [[0, 1]] if tier == 'quick' else qds_mpo, [1, 2], ['rc'] if tier == 'quick' else DTYPES), 200),
               run_case=run_case, sig=sig, bounds={'L': [3], 'D': [1, 2], 'dtypes': 'rc, cr (quick) / all (thorough)'}),
-        Space('apply_L3', core.chunked(_apply_cases([3], [[0, 1]] if tier == 'quick' else qds_mpo, [1, 2], ['rc', 'cr'] if tier == 'quick' else DTYPES), 300),
+        Space('apply_L3', core.chunked(_apply_cases([3], [[0, 1]] if tier == 'quick' else qds_mpo, [1, 2], ['cr'] if tier == 'quick' else DTYPES), 300),
               run_case=run_case, sig=sig, bounds={'L': [3], 'D': [1, 2], 'dtypes': 'rc, cr (quick) / all (thorough)'}),
         Space('chained', core.chunked(_chain_cases([1, 2, 3], [[0, 1], [0, 0]]), 100), run_case=run_case, sig=sig,
               bounds={'L': [1, 2, 3], 'expressions': ['((A+B)@C) psi', '(psi+phi)-phi']}),
